@@ -73,9 +73,30 @@ def _find_originating_frame(caller_fn_scope, innermost=True):
   return result
 
 
+def _original_locals(caller_fn_scope):
+  """Collects the local variables of the function that owns `caller_fn_scope`."""
+  # When control flow is rewritten using functions, the variables of the
+  # original function are spread over its own frame and the frames of the
+  # functions generated for the enclosing blocks: a block's frame only holds the
+  # variables that the block itself uses. Inner frames are more recent.
+  frames = []
+  ctx_frame = inspect.currentframe()
+  while ctx_frame is not None:
+    if ctx_frame.f_locals.get(caller_fn_scope.name, None) is caller_fn_scope:
+      frames.append(ctx_frame)
+    ctx_frame = ctx_frame.f_back
+  assert frames, (
+      'the conversion process should ensure the caller_fn_scope is always'
+      ' found somewhere on the call stack')
+  result = {}
+  for frame in reversed(frames):
+    result.update(frame.f_locals)
+  return result
+
+
 def locals_in_original_context(caller_fn_scope):
   """Executes the locals function in the context of a specified function."""
-  return _find_originating_frame(caller_fn_scope, innermost=True).f_locals
+  return _original_locals(caller_fn_scope)
 
 
 def globals_in_original_context(caller_fn_scope):
@@ -99,7 +120,7 @@ def eval_in_original_context(f, args, caller_fn_scope):
   if globals_ is None:
     globals_ = ctx_frame.f_globals
     if locals_ is None:
-      locals_ = ctx_frame.f_locals
+      locals_ = _original_locals(caller_fn_scope)
   return f(args[0], globals_, locals_)
 
 
